@@ -71,6 +71,47 @@ def _negates(v):
     return False
 
 
+def _may_depend(v, seeds):
+    """Generous forward taint: locals whose value may depend on the seed locals -- through assignments, references,
+    call results, and calls that receive a `&mut` to a local together with a tainted argument (`x &= f(tainted)`)."""
+    T = set(seeds)
+    pointee = {}
+    for bi in v.reachable:
+        for s in v.blocks[bi]["stmts"]:
+            if s["s"] == "assign" and s["rv"]["r"] == "ref" and not s["pl"]["p"]:
+                pointee[s["pl"]["l"]] = s["rv"]["pl"]["l"]
+    changed = True
+    while changed:
+        changed = False
+
+        def add(x):
+            nonlocal changed
+            while x is not None and x not in T:
+                T.add(x)
+                changed = True
+                x = pointee.get(x)
+        for bi in v.reachable:
+            blk = v.blocks[bi]
+            for s in blk["stmts"]:
+                if s["s"] != "assign":
+                    continue
+                rv = s["rv"]
+                src = [o["l"] for o in ir.operands_of_rvalue(rv) if o.get("o") in ("copy", "move")]
+                if rv["r"] in ("ref", "discr", "len"):
+                    src.append(rv["pl"]["l"])
+                if any(x in T for x in src):
+                    add(s["pl"]["l"])
+            t = blk["term"]
+            if t["t"] == "call":
+                al = [a["l"] for a in t["args"] if a.get("o") in ("copy", "move")]
+                if any(x in T for x in al):
+                    add(t["dest"]["l"])
+                    for x in al:
+                        if x in pointee:
+                            add(pointee[x])
+    return T
+
+
 def run(ctx, config="all"):
     rep = Report("R-SIBLING", "subtle (necessary conditions; an unrecognised shape is not a finding): in ct_gt / ct_lt the "
                  "strict comparisons (per limb or delegated) are not ALL oriented the wrong way round with no negation in "
@@ -131,12 +172,12 @@ def run(ctx, config="all"):
     if b is not None:
         v = prog.view(b, (129, 3))
         where = "%s:%s" % (b["file"], b["line"])
-        sl = Slice(v)
-        sl.local(0)
-        if {1, 2} <= sl.params:
-            rep.ok("ct_eq", where, "the result derives from both self and rhs")
+        dep = [p_ for p_ in (1, 2) if 0 in _may_depend(v, {p_})]
+        if dep == [1, 2]:
+            rep.ok("ct_eq", where, "the result may depend on both self and rhs")
         else:
-            rep.violation("ct_eq", where, "the result of ct_eq does not depend on both operands (derives from parameters %s)" % sorted(sl.params))
+            rep.violation("ct_eq", where, "the result of ct_eq cannot depend on both operands (no data flow from parameter(s) %s "
+                          "to the result)" % [p_ for p_ in (1, 2) if p_ not in dep])
     else:
         rep.violation("ct_eq|missing", "src/support/subtle.rs", "ConstantTimeEq impl not found")
     # conditional_select
